@@ -8,6 +8,7 @@
 from __future__ import annotations
 
 import asyncio
+import copy
 import logging
 from abc import ABC
 from collections import deque
@@ -925,7 +926,7 @@ class _BaseHOFormulaBuilder(ABC, Generic[FormulaEngineT, QuantityT]):
             A formula builder that can take further expressions, or can be built
                 into a formula engine.
         """
-        return self._push("+", other)
+        return self._clone()._push("+", other)
 
     def __sub__(
         self,
@@ -941,7 +942,7 @@ class _BaseHOFormulaBuilder(ABC, Generic[FormulaEngineT, QuantityT]):
             A formula builder that can take further expressions, or can be built
                 into a formula engine.
         """
-        return self._push("-", other)
+        return self._clone()._push("-", other)
 
     def __mul__(
         self,
@@ -957,7 +958,7 @@ class _BaseHOFormulaBuilder(ABC, Generic[FormulaEngineT, QuantityT]):
             A formula builder that can take further expressions, or can be built
                 into a formula engine.
         """
-        return self._push("*", other)
+        return self._clone()._push("*", other)
 
     def __truediv__(
         self,
@@ -973,7 +974,7 @@ class _BaseHOFormulaBuilder(ABC, Generic[FormulaEngineT, QuantityT]):
             A formula builder that can take further expressions, or can be built
                 into a formula engine.
         """
-        return self._push("/", other)
+        return self._clone()._push("/", other)
 
     def max(
         self,
@@ -989,7 +990,7 @@ class _BaseHOFormulaBuilder(ABC, Generic[FormulaEngineT, QuantityT]):
             A formula builder that can take further expressions, or can be built
                 into a formula engine.
         """
-        return self._push("max", other)
+        return self._clone()._push("max", other)
 
     def min(
         self,
@@ -1005,7 +1006,7 @@ class _BaseHOFormulaBuilder(ABC, Generic[FormulaEngineT, QuantityT]):
             A formula builder that can take further expressions, or can be built
                 into a formula engine.
         """
-        return self._push("min", other)
+        return self._clone()._push("min", other)
 
     def consumption(
         self,
@@ -1019,10 +1020,11 @@ class _BaseHOFormulaBuilder(ABC, Generic[FormulaEngineT, QuantityT]):
             A formula builder that can take further expressions, or can be built
                 into a formula engine.
         """
-        self._steps.appendleft((TokenType.OPER, "("))
-        self._steps.append((TokenType.OPER, ")"))
-        self._steps.append((TokenType.OPER, "consumption"))
-        return self
+        builder = self._clone()
+        builder._steps.appendleft((TokenType.OPER, "("))
+        builder._steps.append((TokenType.OPER, ")"))
+        builder._steps.append((TokenType.OPER, "consumption"))
+        return builder
 
     def production(
         self,
@@ -1036,10 +1038,24 @@ class _BaseHOFormulaBuilder(ABC, Generic[FormulaEngineT, QuantityT]):
             A formula builder that can take further expressions, or can be built
                 into a formula engine.
         """
-        self._steps.appendleft((TokenType.OPER, "("))
-        self._steps.append((TokenType.OPER, ")"))
-        self._steps.append((TokenType.OPER, "production"))
-        return self
+        builder = self._clone()
+        builder._steps.appendleft((TokenType.OPER, "("))
+        builder._steps.append((TokenType.OPER, ")"))
+        builder._steps.append((TokenType.OPER, "production"))
+        return builder
+
+    def _clone(self) -> Self:
+        """Return an independent copy of this builder.
+
+        The operators and methods above extend a copy and leave `self` as it is, so
+        that an expression can be used in more than one bigger expression.
+
+        Returns:
+            A formula builder with the same expression as `self`.
+        """
+        clone = copy.copy(self)
+        clone._steps = self._steps.copy()
+        return clone
 
 
 class HigherOrderFormulaBuilder(
